@@ -2639,6 +2639,13 @@ func (s *Server) serveConnCounted(c net.Conn, countConcurrency bool) error {
 		}
 
 		timeoutResponse = ctx.timeoutResponse
+		if timeoutResponse == nil {
+			if rs, ok := ctx.Request.bodyStream.(*requestStream); ok && rs.unread() {
+				// The handler left a part of the streamed body on the connection,
+				// so the next request cannot be located: don't reuse the connection.
+				connectionClose = true
+			}
+		}
 		if timeoutResponse != nil {
 			// Acquire a new ctx because the old one will still be in use by the timeout out handler.
 			ctx = s.acquireCtx(c)
